@@ -22,7 +22,7 @@ namespace Mxl.C04
 
 /-- exception classes observable at the API -/
 inductive Exc where
-  | valueError | indexError | keyError
+  | valueError | indexError | keyError | typeError
 deriving DecidableEq, Repr, Inhabited
 
 abbrev Pars := List (Name × Rat)
